@@ -50,9 +50,9 @@ def gen_paths(rng, n=6):
     for _ in range(n):
         if rng.random() < 0.3 and len(dirs) < 4:
             p = rng.choice(dirs)
-            dirs.append(os.path.join(p, gen.gen_name(rng, used.setdefault(p, set()), False)))
+            dirs.append(os.path.join(p, gen.gen_name(rng, used.setdefault(p, set()), True)))
         p = rng.choice(dirs)
-        out.append(os.path.join(p, gen.gen_name(rng, used.setdefault(p, set()), False)))
+        out.append(os.path.join(p, gen.gen_name(rng, used.setdefault(p, set()), True)))
     return out
 
 
@@ -100,7 +100,7 @@ def gen_history(seed, label, *, encrypted=None, max_users=3, nops=(3, 10), destr
         at = round(t, 6) if rng.random() < 0.7 else float(int(t) + 1)
         t = max(t, at)
         if k < p_snapshot or nsnap == 0:
-            fs = gen_fileset(rng, paths, len(contents), prev)
+            fs = dict(prev) if (prev and rng.random() < 0.2) else gen_fileset(rng, paths, len(contents), prev)
             prev = fs
             op = {'op': 'snapshot', 'u': u, 'files': fs, 'at': at, 'mt': rng.randrange(10**9, 2 * 10**9),
                   'note': rng.choice([None, None, 'note ' + ''.join(rng.choice('abcxyz 012') for _ in range(7))])}
@@ -859,6 +859,17 @@ class History:
         if dup:
             self.flag('dedup-reupload', f'snapshot by u{u} uploaded {len(dup)} chunk objects that already existed (e.g. {dup[0]})')
             return
+        # unchanged data (same paths, same contents as a live snapshot of the same family) transfers nothing
+        mine = self.snaps[-1] if self.snaps and self.snaps[-1].owner == u else None
+        # (with max_length % 4 != 0 chunk boundaries depend on adjacent memory: known finding C10-oob-unaligned-max, judged there)
+        aligned = self.case['settings']['chunking']['max_length'] % 4 == 0
+        if ups and mine is not None and not self.orphans_possible and aligned:
+            shape = {p: v[0] for p, v in mine.files.items()}
+            for other in self.snaps[:-1]:
+                if other.alive and self.can_see(u, other) and {p: v[0] for p, v in other.files.items()} == shape:
+                    self.flag('unchanged-data-reuploaded', f'snapshot by u{u} of exactly the data of live snapshot {other.name[:12]} (u{other.owner}) '
+                              f'uploaded {len(ups)} chunk objects', n=len(ups) > 0)
+                    return
         if len(set(ups)) != len(ups) and self.clients[u].concurrent == 1:
             self.flag('dedup-reupload', f'snapshot by u{u} at concurrency 1 uploaded the same chunk twice', twice=True)
 
